@@ -148,15 +148,21 @@ def push_value(node: AbbreviationNode, state: IndentWalkState):
 
         # Output each line, padded to max length
         out.level += 1
+        # All lines belong to one value: number their fields from the same base
+        # so that explicit fields keep their relative order across lines
+        field = next_field = state.field
         for i, line in enumerate(lines):
             out.push_newline(True)
             if before:
                 out.push(before)
+            state.field = field
             push_tokens(line, state)
+            next_field = max(next_field, state.field)
             if after:
                 out.push(' ' * (max_length - line_lengths[i]))
                 out.push(after)
 
+        state.field = next_field
         out.level -= 1
 
 def is_primary_attribute(attr: AbbreviationAttribute):
